@@ -21,7 +21,7 @@ CLAIMS = {
  'C12': ('other', 'P+G', 'Exhaustive MIR inventory of panic-capable sites reachable from parse/eval/CLI, each discharged by a named rule or a one-site table entry; new sites are violations by construction.', 'panic-site inventory on MIR with rule-based discharge + RefCell guard-region analysis'),
  'C13': ('other', 'E+G+S', 'Single writer / key==*value / no removal / immutable Freeze nodes / result provenance / purity / no re-entrancy under the table borrow.', 'who-may-write/construct rules over the resolved call graph, Freeze query, guard regions'),
  'C14': ('other', 'X', 'T/F polarity, leaf declared <=> edge emitted for all filter x child kinds, child coverage and distinct labels for all 12 syntax-node kinds.', 'sibling-agreement rules over THIR matches'),
- 'C15': ('other', 'L', 'ONE thin necessary clause: no index arithmetic or loop range in an integer narrower than 32 bits. The row/column/diagonal enumeration for all n is NOT decided and not claimed.', 'MIR operand-type rule'),
+ 'C15': ('proof', 'N+L', 'Affine loop-nest analysis symbolic in n: every constraint list is proved (Fourier-Motzkin on the loop bounds, polynomial normal form of the index) to be a whole row, column, diagonal or anti-diagonal with the right operator, and the families to cover all lines, for all n >= 1; plus the integer-width clause. Text-level well-formedness of the output is not decided.', 'polyhedral-style loop-nest analysis (polynomial normal form + Fourier-Motzkin) + MIR operand-type rule'),
  'C16': ('other', 'L', 'Complement-edge guard truth table vs specification, same-list provenance of both constraint copies, --all switch, vertex lists.', 'path-condition extraction + truth-table evaluation'),
  'C18': ('other', 'L', 'Refuse-not-truncate shape of generate_graph, candidate guards, --complete edge-count polynomials, read_graph and colour-product guards as truth tables.', 'path-condition extraction, polynomial normal form, structural match'),
  'C19': ('other', 'S+E+G', 'Operation signatures on the tracked cell (incl. aliased operands), query purity (receiver-sensitive), no guard alive across a may-alias write.', 'engine S with tracked RefCell content + receiver-sensitive effect summary + guard regions'),
